@@ -62,12 +62,21 @@ def main():
         # all checks against the patched copy
         import props
         checks = {}
-        for p in sorted(props.PROPS):
+        from concurrent.futures import ThreadPoolExecutor
+        plist = sorted(props.PROPS)
+
+        def run_one(p):
             ev = tempfile.mkdtemp(prefix='ysev.')
             rc, o = sh([os.path.join(VERIF, 'check'), p, '--tier', 'quick'], VERIF, dict(os.environ, YATA_REPO=d, YATA_EVIDENCE_DIR=ev))
             shutil.rmtree(ev, ignore_errors=True)
             viol = [l.strip()[:260] for l in o.splitlines() if l.strip().startswith('[')]
-            checks[p] = {'exit': rc, 'violations': viol[:4]}
+            return p, {'exit': rc, 'violations': viol[:4]}
+        # the first check builds the facts of the patched copy; the others then share the cache
+        p0, c0 = run_one(plist[0])
+        checks[p0] = c0
+        with ThreadPoolExecutor(max_workers=6) as pool:
+            for p, c in pool.map(run_one, plist[1:]):
+                checks[p] = c
         meta['checks'] = checks
         meta['caught_by'] = sorted(p for p, c in checks.items() if c['exit'] == 1)
         meta['confirmed'] = bool(meta['patch_applies'] and meta['demo_without_change'] == 'pass' and meta['demo_with_change'] == 'FAIL'
